@@ -65,7 +65,11 @@ def gen_plan(seed, tier="quick"):
     frames = r.choice([1, 2, 3, 5, 17, 100, 999, r.randrange(1, 5000), r.randrange(1, 400)])
     if nap <= 2 and r.random() < 0.12:
         frames = r.choice([100001, 250000, 400003])      # long recording: a one-frame disagreement is < 1e-5 of it
-    plan = {"property": PROP, "seed": seed, "reader": reader, "form": form, "fixture": fixture,
+    dtype = "int16"
+    if form == "bin" and r.random() < 0.12:
+        dtype = r.choice(["int32", "float32"])          # Reader(..., dtype=...): 4 bytes per sample
+        frame = nc * 4
+    plan = {"property": PROP, "seed": seed, "dtype": dtype, "reader": reader, "form": form, "fixture": fixture,
             "nap": nap, "ignore_warnings": r.random() < 0.3, "sort": r.random() < 0.5,
             "data_seed": r.randrange(1 << 30)}
     if form == "cbin":
@@ -159,11 +163,12 @@ def run_plan(plan):
 def _run(plan, root):
     nap = plan["nap"]
     nc = nap + 1
-    frame = nc * 2
+    dt = np.dtype(plan.get("dtype", "int16"))
+    frame = nc * dt.itemsize
     fs = world.meta_fs(plan["fixture"])
     total_final = plan["bytes"] + sum(b for _, b in plan["bursts"]) + sum(plan.get("pre_open", [])) + (plan.get("reopen") or 0)
     nfr_stream = total_final // frame + 2
-    data = world.make_data(plan["data_seed"], nfr_stream, nap)
+    data = world.make_data(plan["data_seed"], nfr_stream, nap).astype(dt)
     stream = data.tobytes()
     stem = "rec_g0_t0.imec0"
     binf = root / f"{stem}.ap.bin"
@@ -238,6 +243,7 @@ def _run(plan, root):
         return None
 
     cls = getattr(spikeglx, plan["reader"])
+    dkw = {} if dt == np.dtype("int16") else {"dtype": dt.name}
     B0 = state["size"]
     sr = None
     err = None
@@ -246,7 +252,7 @@ def _run(plan, root):
     try:
         try:
             if two_phase:
-                sr = cls(target, open=False, ignore_warnings=plan["ignore_warnings"], sort=plan["sort"])
+                sr = cls(target, open=False, ignore_warnings=plan["ignore_warnings"], sort=plan["sort"], **dkw)
                 sys.settrace(None)
                 _ = sr.shape, sr.ns, sr.rl        # queried before open(): must not raise
                 for nb in plan.get("pre_open", []):      # the writer goes on between construction and open()
@@ -259,11 +265,11 @@ def _run(plan, root):
                 sys.settrace(global_trace)
                 sr.open()
             elif plan.get("use_with"):
-                with cls(target, open=False, ignore_warnings=plan["ignore_warnings"], sort=plan["sort"]) as sr_:
+                with cls(target, open=False, ignore_warnings=plan["ignore_warnings"], sort=plan["sort"], **dkw) as sr_:
                     sr = sr_
                 sr.open()        # leaving the block closed it; the oracle reads through a fresh open()
             else:
-                sr = cls(target, ignore_warnings=plan["ignore_warnings"], sort=plan["sort"])
+                sr = cls(target, ignore_warnings=plan["ignore_warnings"], sort=plan["sort"], **dkw)
         finally:
             sys.settrace(None)
     except Exception as e:
@@ -279,7 +285,7 @@ def _run(plan, root):
     stats["sim_time"] = (B1 // frame) / fs
 
     mf = plan.get("meta_fields", "complete")
-    sigbase = f"{plan['reader']}:{plan['form']}:{plan['meta']}" + (f"({mf})" if mf != "complete" and plan["meta"] != "none" else "") + (":two-phase" if two_phase else "")
+    sigbase = f"{plan['reader']}:{plan['form']}:{plan['meta']}" + ("" if dt == np.dtype("int16") else f":{dt.name}") + (f"({mf})" if mf != "complete" and plan["meta"] != "none" else "") + (":two-phase" if two_phase else "")
     viol = None
     try:
         if err is not None:
@@ -308,7 +314,7 @@ def _run(plan, root):
                     same_obj.open()
                     sr = same_obj
                 else:
-                    sr = cls(target, ignore_warnings=plan["ignore_warnings"], sort=plan["sort"])
+                    sr = cls(target, ignore_warnings=plan["ignore_warnings"], sort=plan["sort"], **dkw)
             except Exception as e:
                 raise Violation("C11.O1", f"{sigbase}:second-open:{type(e).__name__}",
                                 f"second opening of the same path in the same process raised {type(e).__name__}: {e} | bytes={B2} frame={frame} claimed={plan['claimed']}")
@@ -346,7 +352,7 @@ def _o5(plan, sr, stream, frame, nc, state, binf, sigbase, fault, log):
     state["size"] += nb
     fault("growth_after_online_reader_opened")
     hi = state["size"] // frame
-    raw = np.frombuffer(stream[: hi * frame], dtype=np.int16).reshape(hi, nc)
+    raw = np.frombuffer(stream[: hi * frame], dtype=np.dtype(plan.get("dtype", "int16"))).reshape(hi, nc)
     order = np.asarray(sr.raw_channel_order)
     s2v = np.asarray(sr.channel_conversion_sample2v["ap"])
     try:
@@ -398,7 +404,7 @@ def _oracle(plan, sr, stream, frame, nc, fs, B0, B1, log, probe, sigbase):
     # O3: values = file prefix, for exactly the rows requested ∩ [0, N)
     order = np.asarray(sr.raw_channel_order)
     s2v = np.asarray(sr.channel_conversion_sample2v["ap"])
-    raw = np.frombuffer(stream[: hi * frame], dtype=np.int16).reshape(hi, nc)
+    raw = np.frombuffer(stream[: hi * frame], dtype=np.dtype(plan.get("dtype", "int16"))).reshape(hi, nc)
 
     def expect(rows):
         return (raw[rows].astype(np.float32)[..., order] * s2v[order]).astype(np.float32)
